@@ -401,31 +401,51 @@ class Check:
 
 # --------------------------------------------------------------------------- row validation
 
-def validate_rows(module, cfg, trace_file, *, workers=8, timeout=900, env=None, var="l", files=None):
-    """Observation-log validation: every ndjson line is its own initial state (variable `var`
-    = line index) of spec/<module>; TLC evaluates the invariants on each. Returns
-    (TLCResult, sorted list of violating 1-based line indices)."""
-    e = {"TRACE_FILE": trace_file}
-    e.update(env or {})
-    res = run_tlc(module, cfg, workers=workers, timeout=timeout, env=e, extra_args=["-continue"], files=files)
-    if res.timed_out:
-        raise MachineryError("%s: trace validation timed out" % module)
-    if res.error and not res.violated:
-        raise MachineryError("%s: TLC error during trace validation: %s\n%s" % (module, res.error, res.output[-3000:]))
-    if "Error: Evaluating" in res.output or "was not in the domain" in res.output or "Attempted to" in res.output:
-        raise MachineryError("%s: TLC evaluation error during trace validation:\n%s" % (module, res.output[-3000:]))
+def _bad_indices(output, var):
     bad = set()
-    chunks = re.split(r"Error: Invariant (\S+) is violated", res.output)
-    # chunks: [pre, name1, text1, name2, text2, ...]
     names = {}
+    chunks = re.split(r"Error: Invariant (\S+) is violated", output)
     for i in range(1, len(chunks) - 1, 2):
         m = re.search(r"^(?:/\\ )?%s = (\d+)" % var, chunks[i + 1], re.M)
         if m:
             k = int(m.group(1))
             bad.add(k)
             names.setdefault(k, set()).add(chunks[i])
+    return bad, names
+
+
+def validate_rows(module, cfg, trace_file, *, workers=8, timeout=900, env=None, var="l", files=None,
+                  enumerate_cap=60):
+    """Observation-log validation: every ndjson line is its own initial state (variable `var`
+    = line index) of spec/<module>; TLC evaluates the invariants on each state of each trace.
+    Pass 1 stops at the first rejection (fast when everything is accepted, the normal case).
+    If something is rejected, pass 2 re-runs with -continue (capped at `enumerate_cap` s) to
+    enumerate the other rejected lines so that they can be classified. Returns
+    (TLCResult of pass 1, sorted list of rejected 1-based line indices)."""
+    e = {"TRACE_FILE": trace_file}
+    e.update(env or {})
+    res = run_tlc(module, cfg, workers=workers, timeout=timeout, env=e, files=files)
+    if "Error: Evaluating" in res.output or "was not in the domain" in res.output or "Attempted to" in res.output \
+            or "evaluating the expression" in res.output:
+        raise MachineryError("%s: TLC evaluation error during trace validation:\n%s" % (module, res.output[-3000:]))
+    if res.timed_out:
+        raise MachineryError("%s: trace validation timed out" % module)
+    if res.error and not res.violated:
+        raise MachineryError("%s: TLC error during trace validation: %s\n%s" % (module, res.error, res.output[-3000:]))
+    bad, names = _bad_indices(res.output, var)
     if res.violated and not bad:
         raise MachineryError("%s: violation reported but no index parsed:\n%s" % (module, res.output[-3000:]))
+    if bad:
+        r2 = run_tlc(module, cfg, workers=workers, timeout=enumerate_cap, env=e, files=files,
+                     extra_args=["-continue"])
+        r2.output = r2.output[:20_000_000]
+        b2, n2 = _bad_indices(r2.output, var)
+        for k in b2:
+            bad.add(k)
+            names.setdefault(k, set()).update(n2[k])
+        res.output += "\n" + r2.output
+        res.distinct = max(res.distinct, r2.distinct)
+        res.generated = max(res.generated, r2.generated)
     res.bad_names = names
     return res, sorted(bad)
 
